@@ -18,7 +18,6 @@
 (***************************************************************************)
 EXTENDS Integers, Sequences, FiniteSets, TLC, Bytes
 
-F(n, w) == [n |-> n, w |-> w]
 AW(cls) == IF cls = 64 THEN 8 ELSE 4                 \* Elf32_Addr/Off/Word vs Elf64_Addr/Off/Xword
 
 EhdrL(cls) == << F("e_type", 2), F("e_machine", 2), F("e_version", 4), F("e_entry", AW(cls)),
@@ -39,26 +38,11 @@ SymL(cls)  == IF cls = 64
               ELSE << F("st_name", 4), F("st_value", 4), F("st_size", 4), F("st_info", 1),
                       F("st_other", 1), F("st_shndx", 2) >>
 
-RECURSIVE OffsetOf(_, _)
-OffsetOf(L, k) == IF k = 1 THEN 0 ELSE OffsetOf(L, k - 1) + L[k - 1].w     \* offset of the k-th field
-SizeOf(L)  == OffsetOf(L, Len(L) + 1)
-Names(L)   == {L[k].n : k \in DOMAIN L}
 IdentSize  == 16
 EhdrSize(cls) == IdentSize + SizeOf(EhdrL(cls))      \* 52 / 64
 PhdrSize(cls) == SizeOf(PhdrL(cls))                  \* 32 / 56
 ShdrSize(cls) == SizeOf(ShdrL(cls))                  \* 40 / 64
 SymSize(cls)  == SizeOf(SymL(cls))                   \* 16 / 24
-
-RECURSIVE PackFrom(_, _, _, _)
-PackFrom(L, rec, ord, k) == IF k > Len(L) THEN <<>> ELSE Put(Widen(rec[L[k].n], L[k].w), ord) \o PackFrom(L, rec, ord, k + 1)
-Pack(L, rec, ord) == PackFrom(L, rec, ord, 1)
-\* the record [field name |-> digits] read at offset off (built explicitly with :> and @@ so that TLC holds
-\* an evaluated record, not a function it re-evaluates on every field access)
-RECURSIVE UnpackFrom(_, _, _, _, _)
-UnpackFrom(L, b, off, ord, k) ==
-  IF k = Len(L) THEN L[k].n :> GetZ(b, off, L[k].w, ord)
-  ELSE (L[k].n :> GetZ(b, off, L[k].w, ord)) @@ UnpackFrom(L, b, off + L[k].w, ord, k + 1)
-Unpack(L, b, off, ord) == UnpackFrom(L, b, off, ord, 1)
 
 (* constants of the format used below *)
 PT_LOAD == 1
@@ -107,8 +91,6 @@ SecNamesOf(b, sh) ==
 \* symbol tables: every SHT_SYMTAB / SHT_DYNSYM section; names through the string table sh_link
 IsSymTab(s) == TypeIs(s.sh_type, SHT_SYMTAB) \/ TypeIs(s.sh_type, SHT_DYNSYM)
 SymTabIdx(sh) == {i \in 1..Len(sh) : IsSymTab(sh[i]) /\ FitsNat(sh[i].sh_entsize) /\ ToNat(sh[i].sh_entsize) > 0}
-RECURSIVE SetToSeq(_)
-SetToSeq(S) == IF S = {} THEN <<>> ELSE LET m == CHOOSE x \in S : \A y \in S : x <= y IN <<m>> \o SetToSeq(S \ {m})
 SymTabOf(b, sh, i) ==
   LET s    == sh[i]
       ent  == ToNat(s.sh_entsize)
@@ -158,8 +140,6 @@ Query(R, a) ==
 (*      shpos, shent, shstrndx, sym: Seq([name, value, size, info, other, shndx]), size, fill]     *)
 (* kind: "null" | "bits" (content = data) | "nobits" (no content, size nbsize) |                  *)
 (*       "shstr" (the section-name string table) | "symtab" | "strtab" (symbol names)             *)
-Fill(seed, i) == ((((i % 4093) * 89 + seed) * 57) \div 8 + i) % 256      \* background byte at offset i
-
 RECURSIVE StrIdx(_, _)
 StrIdx(names, k) == IF k = 1 THEN 1 ELSE StrIdx(names, k - 1) + Len(names[k - 1]) + 1   \* index of the k-th name
 StrTabOf(names) == <<0>> \o Flat(Tup([k \in 1..Len(names) |-> names[k] \o <<0>>]))
@@ -198,22 +178,8 @@ Chunks(A) ==
   \o Tup([k \in 1..Len(A.ph)  |-> << A.phpos + (k - 1) * A.phent, Pack(PhdrL(A.cls), A.ph[k], A.ord) >>])
   \o Tup([i \in 1..Len(A.sec) |-> << A.shpos + (i - 1) * A.shent, Pack(ShdrL(A.cls), ShdrRec(A, i), A.ord) >>])
   \o Tup([i \in 1..Len(A.sec) |-> << A.sec[i].pos, SecData(A, i) >>])
-Disjoint(A) == LET C == Chunks(A) IN
-  /\ \A k \in DOMAIN C : C[k][1] >= 0 /\ C[k][1] + Len(C[k][2]) <= A.size
-  /\ \A k, j \in DOMAIN C : k < j /\ Len(C[k][2]) > 0 /\ Len(C[j][2]) > 0
-                            => (C[k][1] + Len(C[k][2]) <= C[j][1] \/ C[j][1] + Len(C[j][2]) <= C[k][1])
-\* the file: the non-empty chunks in position order, the space between them filled with background bytes
-\* (requires Disjoint(A))
-RECURSIVE SortChunks(_)
-SortChunks(S) == IF S = {} THEN <<>>
-                 ELSE LET m == CHOOSE c \in S : \A d \in S : c[1] <= d[1] IN <<m>> \o SortChunks(S \ {m})
-FillRange(seed, a, z) == Tup([i \in 1..(z - a) |-> Fill(seed, a + i - 1)])       \* background bytes of offsets a..z-1
-RECURSIVE Lay(_, _, _, _, _)
-Lay(C, k, cur, seed, size) ==
-  IF k > Len(C) THEN FillRange(seed, cur, size)
-  ELSE FillRange(seed, cur, C[k][1]) \o C[k][2] \o Lay(C, k + 1, C[k][1] + Len(C[k][2]), seed, size)
-Encode(A) == LET C == Chunks(A) IN
-  Lay(SortChunks({C[k] : k \in {j \in DOMAIN C : Len(C[j][2]) > 0}}), 1, 0, A.fill, A.size)
+Disjoint(A) == ChunksDisjoint(Chunks(A), A.size)
+Encode(A) == LayOut(Chunks(A), A.fill, A.size)       \* requires Disjoint(A)
 
 \* what a faithful reader must report for A (stated from A, not from the bytes)
 Expected(A) ==
